@@ -8,7 +8,7 @@ import itertools
 
 import numpy as np
 
-from mc.core import Sub, ok, trivial, viol
+from mc.core import Sub, ok, trivial, viol, raised_ok
 from mc import alphabet as A
 from mc import impl
 from mc import scenarios as S
@@ -134,6 +134,98 @@ def run_single(key):
                 return viol(bad)
         n += 1
     return ok(outcome=tol.digest(fs[sorted(fs)[0]]), evals=n + 1)
+
+
+HAND_FAMILIES = ('gauss_full', 'gauss_diagonal', 'gauss_spherical', 'cgauss', 'vmf', 'watson', 'cacg', 'bingham')
+KAPPAS = {'vmf': (1e-6, 700.0, 30.0, 499.0, 1.0), 'watson': (10.0, 650.0, 1e-6, 499.0, 601.0)}
+
+
+def hand_params(fam, seed, j, D, singular):
+    """parameter set of slice number j: scales, concentrations and conditioning differ strongly between the
+    slices of one stack; `singular`: slice 1 gets a parameter no model can be built from (rank-deficient
+    covariance / zero variance)."""
+    r = A.rng(seed, 'c06hand', fam, j, D)
+    scale = (1.0, 1e-4, 1e4, 1e-2, 37.0)[j % 5]
+    if fam.startswith('gauss'):
+        mean = r.standard_normal(D) * np.sqrt(scale)
+        if fam == 'gauss_full':
+            Q = np.linalg.qr(r.standard_normal((D, D)))[0]
+            ev = np.linspace(1.0, 10.0, D) * scale
+            if singular and j == 1:
+                ev[0] = 0.0
+            return dict(mean=mean, covariance=(Q * ev) @ Q.T)
+        if fam == 'gauss_diagonal':
+            v = np.linspace(1.0, 10.0, D) * scale
+            if singular and j == 1:
+                v[0] = 0.0
+            return dict(mean=mean, covariance=v)
+        return dict(mean=mean, covariance=np.array(0.0 if (singular and j == 1) else scale))
+    if fam == 'cgauss':
+        C = A.hpd(seed, D, 10.0, 'c06hand', j) * scale
+        return dict(covariance=C)
+    if fam == 'vmf':
+        m = r.standard_normal(D)
+        return dict(mean=m / np.linalg.norm(m), concentration=np.array(KAPPAS['vmf'][j % 5]))
+    U = A.unitary(seed, D, 'c06hand', fam, j)
+    if fam == 'watson':
+        return dict(mode=U[:, 0].copy(), concentration=np.array(KAPPAS['watson'][j % 5]))
+    if fam == 'cacg':
+        lam = np.logspace(0, -(j % 5) * 2, D) * scale
+        return dict(covariance_eigenvectors=U, covariance_eigenvalues=lam)
+    if fam == 'bingham':
+        lam = -np.arange(D, dtype=float) * (0.5, 30.0, 1e-2, 3.0, 100.0)[j % 5]
+        return dict(covariance_eigenvectors=U, covariance_eigenvalues=lam)
+    raise ValueError(fam)
+
+
+def hand_model(fam, params):
+    d = impl.dist()
+    cls = {'gauss_full': d.Gaussian, 'gauss_diagonal': d.DiagonalGaussian, 'gauss_spherical': d.SphericalGaussian,
+           'cgauss': d.ComplexCircularSymmetricGaussian, 'vmf': d.VonMisesFisher, 'watson': d.ComplexWatson,
+           'cacg': d.ComplexAngularCentralGaussian, 'bingham': d.ComplexBingham}[fam]
+    return cls(**params)
+
+
+def run_hand(key):
+    """log_pdf of a stack of hand-built parameter sets vs each slice's own model."""
+    fam, lead, D, N, singular, seed = (key[k] for k in ('family', 'lead', 'D', 'N', 'singular', 'seed'))
+    lead = tuple(lead)
+    cplx = fam in ('cgauss', 'watson', 'cacg', 'bingham')
+    per = [hand_params(fam, seed, j, D, singular) for j in range(int(np.prod(lead)))]
+    stacked = {k: np.stack([p_[k] for p_ in per]).reshape(lead + np.shape(per[0][k])) for k in per[0]}
+    y = A.generic_data(seed, lead + (N, D), 'c06handy', fam, complex_=cplx)
+    if fam in ('vmf', 'watson', 'bingham'):
+        y = y / np.linalg.norm(y, axis=-1, keepdims=True)
+    for a in list(stacked.values()) + [y]:
+        a.setflags(write=False)
+    alone = []
+    for j, idx in enumerate(np.ndindex(*lead)):
+        alone.append(_call(lambda: np.asarray(hand_model(fam, {k: np.array(v) for k, v in per[j].items()})
+                                              .log_pdf(y[idx]))))
+    lp, e = _call(lambda: np.asarray(hand_model(fam, stacked).log_pdf(y)))
+    if e is not None:
+        if any(e1 is not None for _, e1 in alone):
+            return raised_ok(e)        # a slice cannot be built alone either
+        return viol(f'{fam}: the stacked model raised {e!r} although every slice alone works')
+    if lp.shape != lead + (N,):
+        return viol(f'{fam}: stacked log_pdf shape {lp.shape} != {lead + (N,)}')
+    n = 0
+    for j, idx in enumerate(np.ndindex(*lead)):
+        one, e1 = alone[j]
+        if e1 is not None:
+            continue                   # judged by C09: whether an unusable parameter has to raise
+        if not np.isfinite(one).all():
+            if not np.array_equal(np.isfinite(one), np.isfinite(lp[idx])):
+                return viol(f'{fam}: stacked{list(idx)} and the slice alone are non-finite at different points')
+            continue
+        bad = tol.mismatch(lp[idx], one, tol.TIGHT * 100, what=f'{fam} log_pdf of hand-built parameters: '
+                           f'stacked{list(idx)} vs slice alone')
+        if bad:
+            return viol(bad)
+        n += 1
+    if n == 0:
+        return trivial('no slice evaluable')
+    return ok(outcome=tol.digest(lp[np.isfinite(lp)]), evals=n + 1)
 
 
 def run_mixture(key):
@@ -319,4 +411,16 @@ def subchecks(tier, seed):
                         yield (model, lead, 2, D, 2 * (D + 2) + 2, its, pattern, seed)
     subs.append(Sub('singleton_start', ('model', 'lead', 'K', 'D', 'N', 'its', 'pattern', 'seed'), ss_cases,
                     run_singleton_start))
+
+    def hand_cases():
+        for fam in HAND_FAMILIES:
+            for lead in shapes:
+                if int(np.prod(lead)) == 1 or (len(lead) == 3 and not thorough):
+                    continue
+                for D in (2, 3) if fam != 'bingham' else (2,):
+                    for singular in (False, True) if fam.startswith('gauss') else (False,):
+                        yield (fam, lead, D, 4, singular, seed)
+    subs.append(Sub('hand_built_parameter_stacks', ('family', 'lead', 'D', 'N', 'singular', 'seed'), hand_cases,
+                    run_hand, bound=dict(kappas={k: list(v) for k, v in KAPPAS.items()},
+                                         scales=[1.0, 1e-4, 1e4, 1e-2, 37.0])))
     return subs
